@@ -84,3 +84,14 @@ package jschema
 //@   loop 0 invariant dot == (exists j {g.data[j]} :: 0 <= j && j <= rangeindex && g.data[j] == '.')
 //@   loop 0 invariant exp == (exists j {g.data[j]} :: 0 <= j && j <= rangeindex && (g.data[j] == 'e' || g.data[j] == 'E'))
 //@   loop 0 decreases len(g.data) - rangeindex
+
+// the schema type of a literal: the seven kind predicates are mutually exclusive
+// (contracts above), so the order in which the guesser tries them (a Go map) does not
+// matter; the dispatch itself ranges over a map of method values and is outside the
+// verified subset - TRUSTED: a pure function that never answers "comment"
+//@ func GuessSchemaType(b)
+//@   props C18 C11
+//@   trusted "dispatch over a map of method values (outside the subset): pure, never SchemaTypeComment"
+//@   nopanic
+//@   pure
+//@   ensures result1 == nil ==> result0 != SchemaTypeComment
